@@ -12,7 +12,12 @@ Record sobs := {
   so_ok : bool;
   so_reg : list mobs;
   so_tt : option tok;  so_ebal : list Z;     (* balanceOf over [actors_e t] *)
-  so_td : option denom; so_bbal : list Z     (* bank balance over [actors_b] *)
+  so_td : option denom; so_bbal : list Z;    (* bank balance over [actors_b] *)
+  (* the registry as the two real indexes answer: FunTokens.Indexes.BankDenom.ExactMatch under every spelling the
+     driver asked for (the spelled denom of a CreateFunToken, the other spellings of its name, every registered denom),
+     FunTokens.Indexes.ERC20Addr.ExactMatch for every known contract *)
+  so_lkd : list (denom * list mapping);
+  so_lkt : list (tok * list mapping)
 }.
 
 Definition case : Type := list (op * sobs).
@@ -58,8 +63,16 @@ Definition touch_agrees (s : st) (ob : sobs) : bool :=
   | None => true
   end.
 
+Definition maps_agree (found expect : list mapping) : bool :=
+  Nat.eqb (length found) (length expect) && forallb (fun m => existsb (mapping_eqb m) expect) found.
+
+(** an index lookup under a given string finds exactly the mappings registered under THAT string *)
+Definition lookups_agree (s : st) (ob : sobs) : bool :=
+  forallb (fun q => maps_agree (snd q) (filter (fun m => denom_eqb (m_den m) (fst q)) (reg s))) (so_lkd ob) &&
+  forallb (fun q => maps_agree (snd q) (filter (fun m => Nat.eqb (m_tok m) (fst q)) (reg s))) (so_lkt ob).
+
 Definition step_agrees (s' : st) (ok : bool) (ob : sobs) : bool :=
-  Bool.eqb ok (so_ok ob) && reg_agrees s' (so_reg ob) && touch_agrees s' ob.
+  Bool.eqb ok (so_ok ob) && reg_agrees s' (so_reg ob) && touch_agrees s' ob && lookups_agree s' ob.
 
 Fixpoint first_mismatch (s : st) (c : case) (i : nat) : option nat :=
   match c with
